@@ -177,11 +177,14 @@ class HTTPFile(io.IOBase):
         data = b""
         pos = start
         for chunk_index in range(chunk_start, chunk_stop):
+            if toread <= 0:
+                # Do not fetch the chunk following the requested range
+                # (it lies beyond the end of the resource if `stop` is the
+                # resource length and a multiple of the chunk size).
+                break
             chunk = self.get_cache_chunk(chunk_index)
             chunk_start = pos % self._chunk_size
-            if toread == 0:
-                break
-            elif chunk_start + toread >= self._chunk_size:
+            if chunk_start + toread >= self._chunk_size:
                 data += chunk[chunk_start:]
                 chunks_read = self._chunk_size - chunk_start
             else:
